@@ -137,6 +137,9 @@ func cmdReplay(args []string) int {
 		}
 		return 0
 	}
+	if rp.Violation.Class == "race" && os.Getenv("NUTSIM_RACE_LOG") == "" {
+		return raceReplay(*file, true)
+	}
 	ok, vs := check.Reproduce(rp)
 	fmt.Printf("replay %s property=%s seed=%d\n%s", *file, rp.Prop, rp.Seed, rp.Program.String())
 	for _, v := range vs {
@@ -147,6 +150,36 @@ func cmdReplay(args []string) int {
 		return 1
 	}
 	fmt.Printf("NOT-REPRODUCED property=%s sig=%s\n", rp.Prop, rp.Violation.Sig)
+	return 0
+}
+
+// raceReplay re-executes a replay file in the race-detector build (a fresh
+// process with its own GORACE log) and returns its exit status (1 = reproduced).
+func raceReplay(file string, verbose bool) int {
+	raceBin := os.Getenv("NUTSIM_RACE_BIN")
+	if _, err := os.Stat(raceBin); err != nil {
+		fmt.Fprintln(os.Stderr, "replay: this is a data-race replay and the race-detector build is missing (NUTSIM_RACE_BIN)")
+		return 2
+	}
+	tmp, err := os.MkdirTemp(scratchParent(), "nutsim-race.")
+	if err != nil {
+		return 2
+	}
+	defer os.RemoveAll(tmp)
+	os.WriteFile(filepath.Join(tmp, "tsan.supp"), []byte("race_top:verifsim/\n"), 0644)
+	logp := filepath.Join(tmp, "race")
+	cmd := exec.Command(raceBin, "replay", "-file", file)
+	cmd.Env = append(os.Environ(), "NUTSIM_RACE_LOG="+logp, "GORACE=log_path="+logp+" halt_on_error=0 exitcode=0 suppressions="+filepath.Join(tmp, "tsan.supp"))
+	if verbose {
+		cmd.Stdout = os.Stdout
+	}
+	cmd.Stderr = os.Stderr
+	if err := cmd.Run(); err != nil {
+		if ee, ok := err.(*exec.ExitError); ok {
+			return ee.ExitCode()
+		}
+		return 2
+	}
 	return 0
 }
 
@@ -207,12 +240,32 @@ func cmdCheck(args []string) int {
 		out string
 	}
 	var procs []wproc
+	// race-detector build: a share of the workers runs the same search under
+	// ThreadSanitizer (scheduler hand-off hidden from it, see core/sched.go)
+	raceBin := os.Getenv("NUTSIM_RACE_BIN")
+	raceWorkers := 0
+	if s.Race {
+		if _, err := os.Stat(raceBin); err != nil {
+			fmt.Fprintln(os.Stderr, "check: the race-detector build is missing (NUTSIM_RACE_BIN) — tool trouble")
+			return 2
+		}
+		raceWorkers = nw / 2
+		os.WriteFile(filepath.Join(tmp, "tsan.supp"), []byte("race_top:verifsim/\n"), 0644)
+	}
 	for k := 0; k < nw; k++ {
 		out := filepath.Join(tmp, fmt.Sprintf("w%d.json", k))
-		cmd := exec.Command(self, "worker", "-prop", s.ID, "-tier", *tier, "-seed", strconv.FormatUint(seed, 10),
+		bin := self
+		env := append(os.Environ(), "GOMAXPROCS=2")
+		if k < raceWorkers {
+			bin = raceBin
+			logp := filepath.Join(tmp, fmt.Sprintf("race%d", k))
+			env = append(env, "NUTSIM_RACE_LOG="+logp, "GORACE=log_path="+logp+" halt_on_error=0 exitcode=0 suppressions="+filepath.Join(tmp, "tsan.supp"))
+		}
+		// race workers use their own run indexes (offset) so that both builds explore different seeds
+		cmd := exec.Command(bin, "worker", "-prop", s.ID, "-tier", *tier, "-seed", strconv.FormatUint(seed, 10),
 			"-k", strconv.Itoa(k), "-stride", strconv.Itoa(nw), "-secs", fmt.Sprintf("%g", secs), "-out", out)
 		cmd.Stderr = os.Stderr
-		cmd.Env = append(os.Environ(), "GOMAXPROCS=2")
+		cmd.Env = env
 		if err := cmd.Start(); err != nil {
 			fmt.Fprintln(os.Stderr, "check: cannot start worker:", err)
 			return 2
@@ -299,6 +352,37 @@ func cmdCheck(args []string) int {
 			continue
 		}
 		seenSig[sig] = true
+		if f.Viol[0].Class == "race" {
+			// found by the race-detector build: not shrunk (the detector bounds
+			// its history, shrinking changes what it remembers); replayed three
+			// times in fresh race-build processes
+			path := filepath.Join(verifDir, "replays", fmt.Sprintf("%s-%d.json", s.ID, f.Seed))
+			hit := &check.Replay{Prop: s.ID, Seed: f.Seed, Tier: *tier, Program: f.Program, Violation: f.Viol[0], All: f.Viol}
+			if err := check.WriteReplay(path, hit); err != nil {
+				return 2
+			}
+			if check.IsKnownSig(s, sig) {
+				continue // attributed to a listed finding; its witness is re-run below
+			}
+			n := 0
+			for i := 0; i < 3; i++ {
+				if raceReplay(path, false) == 1 {
+					n++
+				}
+			}
+			// ThreadSanitizer evicts shadow cells at random, so a genuine race can
+			// go unreported in a replay; a report is never a false positive.
+			if n == 0 {
+				fmt.Fprintf(os.Stderr, "check: data race of run %d (seed %d) reproduced 0/3 times in fresh processes; reported as tool trouble\n", f.Run, f.Seed)
+				return 2
+			}
+			hit.Note = fmt.Sprintf("reproduced %d/3 times in fresh race-detector processes", n)
+			check.WriteReplay(path, hit)
+			violations++
+			fmt.Printf("VIOLATION property=%s replay=%s\n", s.ID, path)
+			fmt.Printf("  %s\n", firstLines(hit.Violation.Msg, 40))
+			continue
+		}
 		small := check.Shrink(s, f.Seed, f.Program, sig, 40*time.Second)
 		res := s.Exec(f.Seed, small)
 		var hit *check.Replay
@@ -349,6 +433,14 @@ func cmdCheck(args []string) int {
 			return 2
 		}
 		regressRun++
+		if rp.Violation.Class == "race" {
+			if raceReplay(path, false) == 1 || raceReplay(path, false) == 1 {
+				violations++
+				fmt.Printf("VIOLATION property=%s replay=%s\n", s.ID, path)
+				fmt.Printf("  (regression of a repaired defect) data race %s\n", rp.Violation.Sig)
+			}
+			continue
+		}
 		if ok, _ := check.Reproduce(rp); ok {
 			violations++
 			fmt.Printf("VIOLATION property=%s replay=%s\n", s.ID, path)
@@ -397,6 +489,7 @@ func cmdCheck(args []string) int {
 		"scheduler_yields":              agg.Yields,
 		"scheduler_switches":            agg.Switches,
 		"workers":                       nw,
+		"race_detector_workers":         raceWorkers,
 		"search_wall_s":                 searchWall,
 		"known_findings_checked":        kn,
 		"regression_witnesses_replayed": regressRun,
@@ -420,6 +513,14 @@ func cmdCheck(args []string) int {
 		return 2
 	}
 	return 0
+}
+
+func firstLines(s string, n int) string {
+	lines := strings.Split(s, "\n")
+	if len(lines) > n {
+		lines = lines[:n]
+	}
+	return strings.Join(lines, "\n  ")
 }
 
 func indent(s, pre string) string {
